@@ -13,7 +13,12 @@ A, WA, JE, EA, PROBE = 20, 21, 22, 23, 24
 
 NAMES = {1: "Create", 2: "CreateDropped", 3: "CreateIter", 4: "ECreate", 5: "ECreateIter", 6: "EBuild",
          7: "LazyCreate", 10: "Delete", 11: "DeleteMany", 12: "EDelete", 13: "DeleteAll", 14: "Maintain",
-         20: "IsAlive", 21: "WIsAlive", 22: "JoinEntities", 23: "EntityAt", 24: "ProbeAll"}
+         20: "IsAlive", 21: "WIsAlive", 22: "JoinEntities", 23: "EntityAt", 24: "ProbeAll",
+         # joins / restricted storages / change sets (JOINS_SPEC.md; generators in join_gen.py)
+         80: "Join", 81: "CsNew", 82: "CsAdd", 83: "CsCollect", 84: "CsExtend", 85: "CsClear", 86: "CsDump"}
+
+# code -> function(payload) -> text: structured printing of an operation (join_gen registers one for Join)
+PRETTY_HOOKS = {}
 
 
 def encode(hist):
@@ -38,6 +43,9 @@ def decode(line):
 def pretty(hist):
     parts = []
     for code, p in hist:
+        if code in PRETTY_HOOKS:
+            parts.append(PRETTY_HOOKS[code](p))
+            continue
         nm = NAMES.get(code, "op%d" % code)
         parts.append(nm + ("(" + ",".join(str(x) for x in p) + ")" if p else ""))
     return "; ".join(parts)
